@@ -40,6 +40,8 @@ def patterns(tier, seed):
         {"cap0": 1024, "msgs": [700], "takes": [700], "mode": "truncate", "roundtrip": 1, "window": 0, "n": n},
         {"cap0": 65536, "msgs": [4000, 9000, 100], "takes": [4000, 9000, 100], "mode": "split", "freeze": True, "roundtrip": 3, "window": 0, "n": n},
         {"cap0": 16, "msgs": [5000], "takes": [5000], "mode": "split_to", "unsplit": True, "window": 0, "n": n},
+        {"cap0": 8192, "msgs": [3000], "takes": [3000], "mode": "copy_to_bytes", "window": 0, "n": n},
+        {"cap0": 0, "msgs": [700, 90], "takes": [600, 190], "mode": "copy_to_bytes", "window": 1, "n": n},
         {"cap0": 2048, "msgs": [1500, 200], "takes": [1400, 300], "mode": "split_to", "freeze": True, "window": 1, "n": n},
     ]
     ps += [
@@ -60,7 +62,7 @@ def patterns(tier, seed):
             takes[i] -= d
             takes[i + 1] += d
         ps.append({"cap0": rnd.choice([0, 1, 64, 1000, 1024, 4096, 65536]), "msgs": msgs, "takes": takes,
-                   "mode": rnd.choice(["split_to", "split", "advance", "truncate"]), "freeze": rnd.random() < 0.4,
+                   "mode": rnd.choice(["split_to", "split", "copy_to_bytes", "advance", "truncate"]), "freeze": rnd.random() < 0.4,
                    "roundtrip": rnd.choice([0, 0, 1, 2, 7]), "unsplit": rnd.random() < 0.2, "window": rnd.choice([0, 0, 0, 1, 2, 5]),
                    "reserve_extra": rnd.choice([0, 0, 1, 64]), "n": n})
     for p in ps:
